@@ -199,18 +199,20 @@ func pickLive(t *rapid.T, m *Model, recent []uint32, label string) (uint32, bool
 
 // TxnCfg controls transaction generation.
 type TxnCfg struct {
-	Prop         string // property the exclusion counters are reported under
-	MaxSteps     int
-	Rollback     bool // transactions may end in an error
-	FailInsert   bool // insert callbacks may fail (swallowed by the body)
-	Deletes      bool
-	Inserts      bool
-	Merges       bool
-	OwnUpdates   bool // stores on rows inserted earlier in the same transaction
-	KeyOps       bool // on keyed schemas: key operations (otherwise only InsertKey for new rows)
-	Direct       bool // single-step transactions may use the collection-level methods
-	OnlyCols     []int
-	NoStoreOnDel bool // never store to a row that the same transaction deletes (known finding F11)
+	Prop           string // property the exclusion counters are reported under
+	MaxSteps       int
+	Rollback       bool // transactions may end in an error
+	FailInsert     bool // insert callbacks may fail (swallowed by the body)
+	Deletes        bool
+	Inserts        bool
+	Merges         bool
+	OwnUpdates     bool // stores on rows inserted earlier in the same transaction
+	KeyOps         bool // on keyed schemas: key operations (otherwise only InsertKey for new rows)
+	Direct         bool // single-step transactions may use the collection-level methods
+	OnlyCols       []int
+	NoStoreOnDel   bool     // never store to a row that the same transaction deletes (known finding F11)
+	NoDoubleDelete bool     // never delete one row twice in one transaction
+	StringAlphabet []string // if set, string values are drawn from this alphabet
 }
 
 func storableCols(m *Model, cfg TxnCfg) []int {
@@ -246,7 +248,11 @@ func genStores(t *rapid.T, m *Model, cfg TxnCfg, min, max int, label string) []S
 		if canMerge && rapid.IntRange(0, 2).Draw(t, label+"-merge") == 0 {
 			st.Merge = true
 		}
-		st.Val = genValue(t, cs, label+"-val")
+		if cs.Kind == KString && cfg.StringAlphabet != nil {
+			st.Val = Value{S: rapid.SampledFrom(cfg.StringAlphabet).Draw(t, label+"-sval")}
+		} else {
+			st.Val = genValue(t, cs, label+"-val")
+		}
 		st.Via = uint8(rapid.IntRange(0, numVias-1).Draw(t, label+"-via"))
 		out = append(out, st)
 	}
@@ -327,6 +333,10 @@ func genTxn(t *rapid.T, m *Model, recent []uint32, cfg TxnCfg) TxnSpec {
 				CountExcluded(cfg.Prop, "f11-store-and-delete-same-txn")
 				continue
 			}
+			if cfg.NoDoubleDelete && deleting[row] {
+				CountExcluded(cfg.Prop, "f24-double-delete-double-trigger")
+				continue
+			}
 			st.Row = row
 			deleting[row] = true
 		case SInsert:
@@ -381,6 +391,10 @@ func genTxn(t *rapid.T, m *Model, recent []uint32, cfg TxnCfg) TxnSpec {
 			if at, ok := m.KeyOf(st.Key); ok {
 				if cfg.NoStoreOnDel && stored[at] {
 					CountExcluded(cfg.Prop, "f11-store-and-delete-same-txn")
+					continue
+				}
+				if cfg.NoDoubleDelete && deleting[at] {
+					CountExcluded(cfg.Prop, "f24-double-delete-double-trigger")
 					continue
 				}
 				deleting[at] = true
